@@ -117,3 +117,31 @@ Proof.
     destruct Hx as (c & Hi & He). apply byte_eqb_eq in He. subst c. eauto.
   - intros (c & Hi & ->). constructor. cbn. unfold has. apply existsb_exists. exists c. split; [exact Hi|apply byte_eqb_refl].
 Qed.
+
+(* nothing requested is lost, for any matcher: every finditer match at a column >= start whose frame is requested is reported *)
+Local Open Scope Z_scope.
+Lemma reported_m m s start gap rfn :
+  (forall l b e, rfn = Some l -> has_fwd l = true -> In (b, e) (finditer_m m s 0 0) -> start <= Z.of_nat b ->
+     In (frame_of (fwd_gaps gap (Some l) s start) start (Z.of_nat b)) l ->
+     In (mk_bm (Z.of_nat b) (Z.of_nat e) (slice b e s) (Some (frame_of (fwd_gaps gap (Some l) s start) start (Z.of_nat b))))
+        (matchall_m m s rfn start gap)) /\
+  (forall b e, rfn = None -> In (b, e) (finditer_m m s 0 0) -> start <= Z.of_nat b ->
+     In (mk_bm (Z.of_nat b) (Z.of_nat e) (slice b e s) None) (matchall_m m s rfn start gap)) /\
+  (forall l b e, rfn = Some l -> has_bwd l = true -> In (b, e) (finditer_m m (rc s) 0 0) -> start <= Z.of_nat b ->
+     In (-1 * frame_of (bwd_gaps gap (rc s) start) start (Z.of_nat b) - 1) l ->
+     In (mk_bm (Z.of_nat (length (rc s)) - Z.of_nat e) (Z.of_nat (length (rc s)) - Z.of_nat b) (slice b e (rc s))
+           (Some (-1 * frame_of (bwd_gaps gap (rc s) start) start (Z.of_nat b) - 1)))
+        (matchall_m m s rfn start gap)).
+Proof.
+  unfold matchall_m. repeat split.
+  - intros l b e -> Hf Hi Hs Hr. apply in_or_app. left. unfold fwd_list_m. cbn [runs_fwd]. rewrite Hf. apply in_filter_map.
+    exists (b, e). split.
+    + unfold raw_pass_m. apply filter_In. split; [exact Hi|]. cbn. now apply Z.leb_le.
+    + unfold fwd_one. apply zmem_In in Hr. rewrite Hr. reflexivity.
+  - intros b e -> Hi Hs. apply in_or_app. left. unfold fwd_list_m. cbn [runs_fwd]. apply in_filter_map.
+    exists (b, e). split; [|reflexivity]. unfold raw_pass_m. apply filter_In. split; [exact Hi|]. cbn. now apply Z.leb_le.
+  - intros l b e -> Hf Hi Hs Hr. apply in_or_app. right. unfold bwd_list_m. rewrite Hf. cbv zeta. apply in_filter_map.
+    exists (b, e). split.
+    + unfold raw_pass_m. apply filter_In. split; [exact Hi|]. cbn. now apply Z.leb_le.
+    + unfold bwd_one. apply zmem_In in Hr. rewrite Hr. reflexivity.
+Qed.
